@@ -370,6 +370,13 @@ class Normalizer:
         if n == 2 and callee.endswith("::contains") and "::range::" in callee:
             r_, k_ = a[0], a[1]
             lo_ = hi_ = None
+            # a named constant range (`const R: RangeInclusive<u8> = a..=b; R.contains(&k)`): read the constant's
+            # initialiser body — the range it builds is the range tested
+            if isinstance(r_, tuple) and len(r_) == 2 and r_[0] == "const" and isinstance(r_[1], str) and r_[1] in self.p.bodies and depth < self.max_depth:
+                cb_ = self.p.bodies[r_[1]]
+                rb_ = cb_.return_blocks()
+                if len(rb_) == 1:
+                    r_ = self.norm(flow.simplify_term(flow.Terms(self.p, cb_).place(0, (), rb_[0], "t")), depth + 1)
             ci = lambda z: z[1] if isinstance(z, tuple) and len(z) == 2 and z[0] == "const" and isinstance(z[1], int) else None
             if isinstance(r_, tuple) and len(r_) == 4 and r_[0] == "call" and r_[1].endswith("RangeInclusive::<Idx>::new") and len(r_[2]) == 2:
                 lo_, hi_ = ci(r_[2][0]), ci(r_[2][1])
